@@ -126,6 +126,33 @@ theorem accepts_of_total (hS : Setup P c aL aS nL n) (h : ∀ e k p, P.codec.acc
   have he : ¬ P.e = 0 := by have := hS.e_pos; omega
   simp [he, h]
 
+/-- Reed-Solomon (FEC ID 5 and 129): what the repaired `add_object` checks (`FileDesc::new`: parity ≥ 1, D21;
+    `a_large + parity ≤ 256`, D25) implies that every block of the object is accepted (lemma by the reviewer) -/
+theorem rs_accepts (rep) (hS : Setup P c aL aS nL n) (hc : P.codec = reedSolomon rep) (hp : 1 ≤ P.p) (hk : aL + P.p ≤ 256) :
+    Accepts P c aL aS nL n := by
+  intro k hkn
+  unfold blockAt Block.new Codec.encode
+  have he : ¬ P.e = 0 := by have := hS.e_pos; omega
+  have h1 := bufAt_nsym hS hkn (c := c)
+  have h2 := A_pos aL aS nL k hS.good.aS_pos hS.good.aS_le
+  have h3 : A aL aS nL k ≤ aL := by unfold A; split; exact Nat.le_refl _; exact hS.good.aS_le
+  simp only [he, if_false, h1, hc, reedSolomon]
+  have : decide (1 ≤ A aL aS nL k ∧ 1 ≤ P.p ∧ A aL aS nL k + P.p ≤ 256) = true := by
+    simp; omega
+  simp [this]
+
+/-- Raptor (FEC ID 1) as the crate is: accepted iff no block has 2 or 3 source symbols -/
+theorem raptor_accepts (rep) (hS : Setup P c aL aS nL n) (hc : P.codec = raptorLegacy rep)
+    (hk : ∀ k, k < n → A aL aS nL k ≠ 2 ∧ A aL aS nL k ≠ 3) : Accepts P c aL aS nL n := by
+  intro k hkn
+  unfold blockAt Block.new Codec.encode
+  have he : ¬ P.e = 0 := by have := hS.e_pos; omega
+  have h1 := bufAt_nsym hS hkn (c := c)
+  obtain ⟨h2, h3⟩ := hk k hkn
+  simp only [he, if_false, h1, hc, raptorLegacy]
+  have : decide (A aL aS nL k ≠ 2 ∧ A aL aS nL k ≠ 3) = true := by simp [h2, h3]
+  simp [this]
+
 end Flute.BencShape
 
 namespace Flute.BencShape
